@@ -40,6 +40,8 @@ pub mod c18;
 pub mod c05;
 #[cfg(feature = "c17")]
 pub mod c17;
+#[cfg(feature = "c16")]
+pub mod c16;
 #[cfg(feature = "c09")]
 pub mod c09;
 
@@ -78,6 +80,8 @@ pub fn tables() -> Vec<&'static [(&'static str, fn())]> {
     v.push(c05::TABLE);
     #[cfg(feature = "c17")]
     v.push(c17::TABLE);
+    #[cfg(feature = "c16")]
+    v.push(c16::TABLE);
     #[cfg(feature = "c09")]
     v.push(c09::TABLE);
     v
